@@ -5,6 +5,7 @@ import (
 	"fmt"
 	"sort"
 	"sync"
+	"sync/atomic"
 	"time"
 
 	"github.com/jmsadair/raft"
@@ -89,6 +90,7 @@ type Network struct {
 	codec     raft.Transport
 
 	Sent, Delivered, Dropped, Dups, CapDrops int
+	inflight                                 atomic.Int64
 }
 
 func newNetwork(c *Cluster, tape []byte, maxDelay time.Duration) *Network {
@@ -321,6 +323,8 @@ func (n *Network) endpoint(addr string) *SimTransport {
 // rpc carries one request from src to the node at dstAddr and its reply back.
 // It runs in the sender's goroutine, like a blocking RPC.
 func (n *Network) rpc(src *SimTransport, dstAddr string, info MsgInfo, req any) (any, error) {
+	n.inflight.Add(1)
+	defer n.inflight.Add(-1)
 	if src.inst.dead.Load() {
 		// a crashed process sends nothing
 		return nil, errClosed
